@@ -237,7 +237,7 @@ Record CInv (s : sys) (c : nat) (k : lc) : Prop := {
   ci_poll : k_alive k = true -> poller_ok (s_readd s) k;
   ci_phase : k_alive k = true -> phase s c k;
   ci_dead : k_alive k = false -> holders s c = 0;
-  ci_deadst : k_alive k = false -> k_st k = Disconnected /\ k_added k = false /\ k_pidx k = PNew;
+  ci_deadst : k_alive k = false -> k_st k = Disconnected /\ k_added k = false /\ k_pidx k = PNew /\ k_ups k = 1 /\ k_downs k = 1;
   ci_dtor : k_dtors k = (if k_alive k then 0 else 1) /\ k_closes k = k_dtors k
 }.
 
@@ -600,7 +600,9 @@ Proof.
   - intros c' k' Hg'. destruct (Nat.eq_dec c c') as [<-|Hn].
     + rewrite getc_put_eq in Hg' by (eapply getc_lt, Hg). injection Hg' as <-.
       destruct (HC c k Hg) as [Hl Hi Hc Hp Hph Hd Hds Hdt].
-      constructor; cbn [kill k_alive k_loop k_ccb k_dtors k_closes k_st k_added k_pidx]; try discriminate; auto.
+      assert (Hud : k_ups k = 1 /\ k_downs k = 1) by (specialize (Hc Ha); unfold counters_ok in Hc; rewrite Hst in Hc; exact Hc).
+      destruct Hud as [Hups1 Hdowns1].
+      constructor; cbn [kill k_alive k_loop k_ccb k_dtors k_closes k_st k_added k_pidx k_ups k_downs]; try discriminate; auto 10.
       * intros _. rewrite (holders_put_own s c k (kill k) Hg eq_refl eq_refl). exact Hh.
       * destruct Hdt as [Hd1 Hd2]. rewrite Ha in Hd1. rewrite Hd2, Hd1. auto.
     + rewrite getc_put_neq in Hg' by exact Hn.
@@ -2834,7 +2836,7 @@ Proof.
   destruct (ci_dtor s c k HCk) as [D1 D2]. split; [destruct (k_alive k); lia|]. split; [exact D2|]. split.
   - destruct (k_alive k); split; intros; try lia; try discriminate; reflexivity.
   - split; [|split].
-    + intros Ha. destruct (ci_deadst s c k HCk Ha) as (A & B & C). unfold k_inset. rewrite C. repeat split; auto. apply (ci_dead s c k HCk Ha).
+    + intros Ha. destruct (ci_deadst s c k HCk Ha) as (A & B & C & _). unfold k_inset. rewrite C. repeat split; auto. apply (ci_dead s c k HCk Ha).
     + intros Ha. apply (HH c k Hg Ha).
     + intros _. apply holders_eq, Hg.
 Qed.
@@ -2867,7 +2869,7 @@ Proof.
     + destruct Hph as (_ & _ & _ & [(_ & _ & B)|[(B & _)|(B & _)]]); try congruence. repeat split; auto. right. exact Est.
     + destruct Hph as (_ & [(_ & _ & Hx & _)|[(_ & B & _)|(_ & B & _)]]); [discriminate|congruence|congruence].
   - right. destruct (ci_dtor s c k HCk) as [D1 D2]. rewrite Ha in D1.
-    destruct (ci_deadst s c k HCk Ha) as (A & B & C). unfold k_inset. rewrite C. repeat split; auto. congruence.
+    destruct (ci_deadst s c k HCk Ha) as (A & B & C & _). unfold k_inset. rewrite C. repeat split; auto. congruence.
 Qed.
 
 (* ==== affinity: which thread runs the callbacks ====================================================== *)
